@@ -57,6 +57,17 @@ pub fn c02(a: &Analysis<'_>, out: &mut Vec<Violation>) {
                 .attr("what", what),
             );
         }
+        // "... then Finished, with no event of that attempt after it" - Log events included (tracing runs)
+        if let Some(f) = at.finished {
+            if let Some(l) = at.logs.iter().find(|l| **l > f) {
+                out.push(v("C02", "event-after-finished", format!("attempt {} {:?}: {} follows its Finished event (#{f})", at.scenario, at.retries, evs[*l].short())).attr("kind", "Log"));
+            }
+        }
+        if let Some(st) = at.started {
+            if let Some(l) = at.logs.iter().find(|l| **l < st) {
+                out.push(v("C02", "event-before-started", format!("attempt {} {:?}: {} precedes its Started event (#{st})", at.scenario, at.retries, evs[*l].short())).attr("kind", "Log"));
+            }
+        }
         if !exp.unplaced.is_empty() {
             out.push(
                 v("C02", "misplaced-failure", format!("attempt {} {:?}: failure tokens {:?} do not belong to this attempt's callbacks", at.scenario, at.retries, exp.unplaced)),
